@@ -3,7 +3,7 @@ from .C01 import ROUTER_TB
 
 CFG = {
     "harness": "openapi",
-    "coq_header": "From DS Require Import Base Versions Router RouterSpec OpenApiGen.\nFrom DSR Require Import Run_C06.",
+    "coq_header": "From DS Require Import Base Versions Router RouterSpec OpenApiGen RefClosure.\nFrom DSR Require Import Run_C06.",
     "case_type": "dcase",
     "judge": "judge",
     "rule": "route tables from the router grammar (conflict-free stream; tables that registration refuses are C02's "
@@ -13,7 +13,10 @@ CFG = {
             "document is written (twice, and for the permuted registration) and read back: (path, method, "
             "operationId) of every operation, every $ref string, every components key, byte equality of the three "
             "writes; and lookup_route answers each endpoint's own witness request at that version. One case = one "
-            "table with all versions; non-trivial: at least two endpoints; distinct by case content.",
+            "table with all versions; non-trivial: at least two endpoints; distinct by case content. A second stream "
+            "(group deps) gives a query parameter a schema that refers into a random definition graph (chains, "
+            "branching, cycles, unreachable definitions) and compares the keys found under components.schemas with "
+            "the dependency closure computed by the RefClosure model.",
     "trusted_base": ROUTER_TB + [
         "modelled, not verified: openapiv3 serialisation and serde_json pretty-printing (byte identity across "
         "registration orders and runs is observed, the theorem gives equality of the operation set); schemars' "
@@ -29,7 +32,9 @@ CFG = {
                 "filter: the operations of the document for v are exactly - under method, path template (a wildcard "
                 "shown as {name}) and endpoint - the published endpoints whose range contains v; no two operations "
                 "share (path, method); unpublished endpoints are omitted yet still served; the operation set does not "
-                "depend on registration order; what is documented at v is what lookup serves at v. Proved by mutual "
+                "depend on registration order; what is documented at v is what lookup serves at v; the definitions gathered for a parameter schema "
+                "(ReferenceVisitor) are closed under references, contain the schema's own references and only reachable "
+                "names, and fail only on an undefined name. Proved by mutual "
                 "induction over the trie (walk = routes) on top of the C01 refinement. Correspondence with the real "
                 "gen_openapi on generated tables x every chain version, judged in Coq; reference closure ($ref "
                 "resolves inside the document), byte identity across registration permutations and repeated "
